@@ -210,7 +210,7 @@ theorem hf_fieldOf (nv : Str × Str) (h : ItemOK nv) :
   have hcr : isBoundary '\r' = true := by decide
   have hfn : '\n' ∉ (splitChar '\n' nv.2).headD [] := fun hm => by have := h.firstNoB _ hm; rw [hnl] at this; cases this
   have hfr : '\r' ∉ (splitChar '\n' nv.2).headD [] := fun hm => by have := h.firstNoB _ hm; rw [hcr] at this; cases this
-  refine ⟨⟨h.nameNe, ?_, ?_, ?_, ?_, ?_, ?_⟩, ?_⟩
+  refine ⟨⟨h.nameNe, ?_, ?_, ?_, ?_, ?_⟩, ?_⟩
   · intro c hc
     have hr := inRange_facts (h.nameR c hc).1
     exact ⟨headerNameChar_of (h.nameR c hc).1 (h.nameR c hc).2, (h.nameR c hc).2, hr.1, hr.2.1⟩
@@ -231,7 +231,6 @@ theorem hf_fieldOf (nv : Str × Str) (h : ItemOK nv) :
     simp only [fieldOf] at hc
     have : c ∈ (splitChar '\n' nv.2).headD [] := List.mem_of_getLast? hc
     exact ⟨fun e => hfn (e ▸ this), fun e => hfr (e ▸ this)⟩
-  · intro hv; exact absurd hv h.firstNe
   · intro c hc
     simp only [fieldOf] at hc
     obtain ⟨h1, h2⟩ := h.conts c hc
